@@ -67,3 +67,29 @@ Proof.
       rewrite (aeval_subst (rho_env env) n d v Hv (fun _ => eq_refl) (esize e) e (le_n _)). exact Hw.
   - apply eval_const_correct; [exact Hok | unfold eval_fuel; lia | exact (lits_subst n d Hd (esize e) e (le_n _) He) | exact Hw].
 Qed.
+
+(** ---- chains of definitions ---- *)
+
+(** a sequence of EQU definitions, each evaluated where it stands (it may use the names defined before it) *)
+Fixpoint bind_all (rho : env) (defs : list (string * exp)) : option env :=
+  match defs with
+  | [] => Some rho
+  | (n, d) :: r => match aeval rho d with Some v => bind_all (bind rho n v) r | None => None end
+  end.
+
+(** inlining them all, innermost (latest) first *)
+Fixpoint subst_all (defs : list (string * exp)) (e : exp) : exp :=
+  match defs with
+  | [] => e
+  | (n, d) :: r => subst n d (subst_all r e)
+  end.
+
+Theorem equ_chain_transparent : forall defs rho rho' e, bind_all rho defs = Some rho' ->
+  aeval rho' e = aeval rho (subst_all defs e).
+Proof.
+  induction defs as [|[n d] r IH]; intros rho rho' e H; cbn [bind_all subst_all] in *.
+  - inversion H; subst. reflexivity.
+  - destruct (aeval rho d) as [v|] eqn:Ed; [|discriminate].
+    rewrite (IH _ _ e H).
+    exact (aeval_subst rho n d v Ed (fun _ => eq_refl) (esize (subst_all r e)) (subst_all r e) (le_n _)).
+Qed.
